@@ -100,6 +100,27 @@ def seq_machines():
     c4 = build({"ld_q": ("input", []), "en_d": ("input", []), "clk": ("input", []), "u.clk": ("bb_input", ["clk"]), "u.d": ("bb_input", ["g"]), "u.q": ("bb_output", []), "w": ("buf", ["u.q"]),
                 "m_q": ("and", ["ld_q", "w"]), "g": ("xor", ["m_q", "en_d"]), "y": ("or", ["w", "ld_q"])}, outputs=["y", "m_q"], blackboxes={"u": ff})
     yield "nets-named-like-flop-pins", c4, ff
+    # an input register: a primary input whose only load is the data pin of a flop (its per-step copies stay free inputs);
+    # a second input feeds nothing but the clock pins
+    c5 = build({"din": ("input", []), "x": ("input", []), "clk": ("input", []), "u.clk": ("bb_input", ["clk"]), "u.d": ("bb_input", ["din"]), "u.q": ("bb_output", []), "w": ("buf", ["u.q"]),
+                "v.clk": ("bb_input", ["clk"]), "v.d": ("bb_input", ["g"]), "v.q": ("bb_output", []), "w1": ("buf", ["v.q"]),
+                "g": ("xor", ["w", "x"]), "y": ("and", ["w1", "x"])}, outputs=["y"], blackboxes={"u": ff, "v": ff})
+    yield "input-register", c5, ff
+    # a flop whose clock-like pin has a name made of the letters of the data pins: the single-name form of ignore_pins
+    # ("cd") must ignore that pin and not the pins "c" / "d"
+    fd = RefBlackBox("fd", ["cd", "d"], ["q"])
+    c6 = build({"x": ("input", []), "clk": ("input", []), "u.cd": ("bb_input", ["clk"]), "u.d": ("bb_input", ["g"]), "u.q": ("bb_output", []), "w": ("buf", ["u.q"]),
+                "g": ("xnor", ["x", "w"]), "y": ("or", ["x", "w"])}, outputs=["y"], blackboxes={"u": fd})
+    yield "ignored-pin-named-with-the-letters-of-the-data-pins", c6, fd
+    # two pins to ignore, given as a list
+    fr = RefBlackBox("ffr", ["clk", "rst", "d"], ["q"])
+    c7 = build({"din": ("input", []), "x": ("input", []), "clk": ("input", []), "u.clk": ("bb_input", ["clk"]), "u.rst": ("bb_input", ["clk"]), "u.d": ("bb_input", ["din"]), "u.q": ("bb_output", []),
+                "w": ("buf", ["u.q"]), "y": ("nand", ["w", "x"])}, outputs=["y"], blackboxes={"u": fr})
+    yield "two-ignored-pins-and-an-input-register", c7, fr
+
+
+# the documented forms of ignore_pins: one name, or a list of names
+IGNORE = {"ignored-pin-named-with-the-letters-of-the-data-pins": "cd", "two-ignored-pins-and-an-input-register": ["clk", "rst"], "two-flops": ["clk"]}
 
 
 def seq_reference(c, init, seq):
@@ -126,8 +147,9 @@ def check_seq(c, n, uc, io_map, add_flop_outputs, initial):
     for k in [f"{i}_d" for i in insts] + [f"{i}_q" for i in insts] + ins + sorted(c.outputs()):
         if k not in io_map or len(io_map[k]) != n:
             return {"problem": "io_map lacks an entry (of length n) for an io of the stripped circuit", "key": k, "keys": sorted(io_map)}
-    if any("clk" in x for x in uc.nodes()):
-        return {"problem": "ignored clock pins / unloaded clock input were not removed", "nodes": sorted(x for x in uc.nodes() if "clk" in x)}
+    gone = {"clk"} | {f"{i}_{p}" for i in insts for p in c.blackboxes[i].io() - {"d", "q"}}
+    if any(g in x for x in uc.nodes() for g in gone):
+        return {"problem": "ignored clock pins / unloaded clock input were not removed", "nodes": sorted(x for x in uc.nodes() if any(g in x for g in gone))}
     free_init = [i for i in insts if not initial or (isinstance(initial, dict) and i not in initial)]
     want_free = {io_map[i][t] for i in ins for t in range(n)} | {io_map[f"{i}_q"][0] for i in free_init}
     got_free = set(free_nodes(uc))
@@ -174,10 +196,13 @@ def run(chk):
     fs = repo.func(FILE, "sequential_unroll")
     n_eval = 0
     steps = (1, 2, 3)
-    for name, c, sio in machines():
-        for n in steps:
+    from ..pkgenv import FullStackCaller
+
+    FS = FullStackCaller(repo)
+    for name, c, sio, caller in [(nm, cc, ss, P) for nm, cc, ss in machines()] + [(f"{nm}@full-stack", cc, ss, FS) for nm, cc, ss in machines()]:
+        for n in steps if caller is P else (2,):
             snap = c._snapshot()
-            r = P.call(FILE, "unroll", c, n, dict(sio))
+            r = caller.call(FILE, "unroll", c, n, dict(sio))
             n_eval += 1
             key = f"unroll::{name}::n={n}"
             if r[0] != "return" or not isinstance(r[1], tuple) or len(r[1]) != 2:
@@ -197,12 +222,13 @@ def run(chk):
         chk.ob("C09.G.guards", f"unroll::blackboxes::{name}", r[0] == "raise" and r[1] == "ValueError", file=FILE, func="unroll", line=fu.node.lineno, fact={"result": str(r)[:100]}, expect="ValueError")
         insts = sorted(c.blackboxes)
         configs = [(False, None), (True, None), (False, "0"), (False, "1"), (True, {insts[0]: "1"})]
-        for n in steps:
-            for afo, init in configs:
+        for n, caller, tag in [(n_, P, "") for n_ in steps] + [(2, FS, "@full-stack")]:
+            for afo, init in configs if caller is P else configs[1::2]:
                 snap = c._snapshot()
-                r = P.call(FILE, "sequential_unroll", c, n, "d", "q", ignore_pins="clk", add_flop_outputs=afo, initial_values=init)
+                ign = IGNORE.get(name, "clk")
+                r = caller.call(FILE, "sequential_unroll", c, n, "d", "q", ignore_pins=list(ign) if isinstance(ign, list) else ign, add_flop_outputs=afo, initial_values=init)
                 n_eval += 1
-                key = f"sequential_unroll::{name}::n={n}::flop_outputs={afo}::init={init}"
+                key = f"sequential_unroll::{name}{tag}::n={n}::flop_outputs={afo}::init={init}"
                 if r[0] != "return" or not isinstance(r[1], tuple) or len(r[1]) != 2:
                     chk.ob("C09.Q.sequential_unroll", key, False, file=FILE, func="sequential_unroll", line=fs.node.lineno, fact={"result": str(r)[:200]})
                     continue
